@@ -2,7 +2,7 @@
 # tools/seedconfirm.sh <ID> <n> : confirm a sub-agent's seeded change in the scratch worktree /tmp/seeds/<ID>:
 # demo passes on the clean tree, fails with the patch; then run ./check <ID> quick with the patch applied to /repo.
 set -u
-ID=$1; n=$2; W=/tmp/seeds/$ID; O=/tmp/seeds/out_$ID/$n
+ID=$1; n=$2; W=/tmp/seeds/$ID; O=/tmp/seeds/${SEEDOUT:-out}_$ID/$n
 export GOFLAGS=-mod=mod GOPROXY=off GOSUMDB=off GOTOOLCHAIN=local
 demo=$(ls $O/demo_test.go $O/demo*.go $O/demo/main.go 2>/dev/null | head -1)
 pkgdir=$(grep -m1 -oE "pkg/[a-z0-9_]+|cmd/[a-z0-9_]+" "$demo" | head -1)
